@@ -258,16 +258,24 @@ def hBin (b : BinOp) (s : HS) (x y : Val) : Except PyExc Val × HS :=
     | .add, .list _ xs, .list _ ys => allocS s (.list "list" (xs ++ ys))
     | .add, .tuple _ xs, .tuple _ ys => allocS s (.tuple "tuple" (xs ++ ys))
     | .mul, .list _ xs, .scalar n => match asInt? n with
-      | some k => allocS s (.list "list" (repeatList xs k))
+      | some k => match repGuard xs.length k with
+        | some e => errS s e
+        | none => allocS s (.list "list" (repeatList xs k))
       | none => errS s tyErr
     | .mul, .tuple _ xs, .scalar n => match asInt? n with
-      | some k => allocS s (.tuple "tuple" (repeatList xs k))
+      | some k => match repGuard xs.length k with
+        | some e => errS s e
+        | none => allocS s (.tuple "tuple" (repeatList xs k))
       | none => errS s tyErr
     | .mul, .scalar n, .list _ xs => match asInt? n with
-      | some k => allocS s (.list "list" (repeatList xs k))
+      | some k => match repGuard xs.length k with
+        | some e => errS s e
+        | none => allocS s (.list "list" (repeatList xs k))
       | none => errS s tyErr
     | .mul, .scalar n, .tuple _ xs => match asInt? n with
-      | some k => allocS s (.tuple "tuple" (repeatList xs k))
+      | some k => match repGuard xs.length k with
+        | some e => errS s e
+        | none => allocS s (.tuple "tuple" (repeatList xs k))
       | none => errS s tyErr
     | .mod, .scalar (.str _), _ => errS s unsupported        -- printf-style formatting
     | .bor, .dict _ a, .dict _ c => dictMergeH s a c
